@@ -3,7 +3,7 @@
 # Confirms a seeded change: (1) applies to a scratch copy of /repo, (2) the 16 unit tests still pass,
 # (3) demo.c passes on /repo and fails on the changed copy, (4) runs the listed checks (default: the
 # property in meta.json) against the changed copy and reports whether each raised VIOLATION.
-D=$1; shift
+D=$(realpath $1); shift
 PID=$(python3 -c "import json,sys; print(json.load(open('$D/meta.json'))['property'])")
 CHECKS=${*:-$PID}
 S=$(mktemp -d /tmp/seedchk.XXXXXX)
